@@ -640,6 +640,8 @@ func ParseScanCommand(cmd redcon.Command) (*Scan, error) {
 		case "RC":
 			s.SetReplica()
 			args = args[1:]
+		default:
+			return nil, errors.New("syntax error")
 		}
 	}
 
